@@ -22,6 +22,7 @@ CONSTANTS H, MaxRefeed, MaxSteps,
           Fix       \* subset of {"clearheld"}: the held block is dropped when the refeeder moves on
 
 VARIABLES next,      \* height the refeeder waits for (0 = inactive)
+          want,      \* the block whose hash the refeeder compares arriving blocks with (kept when it goes inactive)
           requested, \* the block at `next` has been requested
           held,      \* the block body the refeeder holds (0 = none)
           out,       \* block requests on their way to the peer
@@ -29,17 +30,17 @@ VARIABLES next,      \* height the refeeder waits for (0 = inactive)
           provided,  \* what the handlers were given: <<height, block>>
           stray,     \* block messages that went to the ordinary download window instead (not requested there: dropped)
           refeeds, steps, act
-vars == <<next, requested, held, out, net, provided, stray, refeeds, steps, act>>
+vars == <<next, want, requested, held, out, net, provided, stray, refeeds, steps, act>>
 A(a, x) == [a |-> a, x |-> x]
 
-Init == /\ next = 0 /\ requested = FALSE /\ held = 0 /\ out = <<>> /\ net = <<>> /\ provided = <<>> /\ stray = <<>>
+Init == /\ next = 0 /\ want = 0 /\ requested = FALSE /\ held = 0 /\ out = <<>> /\ net = <<>> /\ provided = <<>> /\ stray = <<>>
         /\ refeeds = 0 /\ steps = 0 /\ act = A("init", 0)
 Step == steps < MaxSteps /\ steps' = steps + 1
 
 Refeed(h) ==       \* block_refeeder.go SetHeight: only an earlier height (or an inactive refeeder) takes effect
   /\ Step /\ refeeds < MaxRefeed /\ refeeds' = refeeds + 1 /\ h \in 1..H
-  /\ IF next = 0 \/ next > h THEN next' = h /\ requested' = FALSE /\ held' = (IF "clearheld" \in Fix THEN 0 ELSE held)
-                              ELSE UNCHANGED <<next, requested, held>>
+  /\ IF next = 0 \/ next > h THEN next' = h /\ want' = h /\ requested' = FALSE /\ held' = (IF "clearheld" \in Fix THEN 0 ELSE held)
+                              ELSE UNCHANGED <<next, want, requested, held>>
   /\ act' = A("Refeed", h) /\ UNCHANGED <<out, net, provided, stray>>
 
 Loop ==            \* blocks.go:28-58
@@ -49,18 +50,19 @@ Loop ==            \* blocks.go:28-58
          r1 == IF ~prov THEN requested ELSE (next = H)          \* Clear: requested = TRUE; Increment: FALSE
          h1 == IF prov /\ "clearheld" \in Fix THEN 0 ELSE held
      IN /\ provided' = IF prov THEN Append(provided, <<next, held>>) ELSE provided
-        /\ held' = h1
+        /\ held' = h1 /\ want' = (IF n1 # 0 THEN n1 ELSE want)
         /\ IF n1 # 0 /\ ~r1 THEN next' = n1 /\ requested' = TRUE /\ out' = Append(out, n1)
                             ELSE next' = n1 /\ requested' = r1 /\ UNCHANGED out
   /\ act' = A("Loop", 0) /\ UNCHANGED <<net, stray, refeeds>>
 
 Answer == /\ Step /\ out # <<>> /\ net' = Append(net, Head(out)) /\ out' = Tail(out)
-          /\ act' = A("Answer", Head(out)) /\ UNCHANGED <<next, requested, held, provided, stray, refeeds>>
+          /\ act' = A("Answer", Head(out)) /\ UNCHANGED <<next, want, requested, held, provided, stray, refeeds>>
 
 Deliver == /\ Step /\ net # <<>> /\ net' = Tail(net)
-           /\ IF next # 0 /\ Head(net) = next THEN held' = Head(net) /\ UNCHANGED stray     \* SetBlock: the hash the refeeder waits for
+           /\ IF Head(net) = want /\ ("clearheld" \notin Fix \/ next # 0)
+                 THEN held' = Head(net) /\ UNCHANGED stray     \* SetBlock: the hash the refeeder compares with (also when inactive)
                                               ELSE stray' = Append(stray, Head(net)) /\ UNCHANGED held
-           /\ act' = A("Deliver", Head(net)) /\ UNCHANGED <<next, requested, out, provided, refeeds>>
+           /\ act' = A("Deliver", Head(net)) /\ UNCHANGED <<next, want, requested, out, provided, refeeds>>
 
 Next == (\E h \in 1..H : Refeed(h)) \/ Loop \/ Answer \/ Deliver
 Spec == Init /\ [][Next]_vars
